@@ -391,6 +391,52 @@ pub fn run(ctx: &Ctx) -> i32 {
     });
     total.merge(r);
 
+    // ---- invalid side: all the size fields at their extremes at once -----------------------------
+    // (sums and products that only wrap when several fields are extreme together: the largest
+    // cluster counts 2^32-1 / 2^32-2 need total = max, one block per cluster and next to no
+    // reserved / FAT / root blocks; the information sector stays well-formed so that its fields are used)
+    let fat32_bases: Vec<usize> = (0..bs.len()).filter(|&i| bs[i].g.fat32).collect();
+    let r = report::parallel(ctx.threads, fat32_bases.len(), |k, rep| {
+        let b = &bs[fat32_bases[k]];
+        let bpb = sector_of(&b.g, 1);
+        let inf = sector_of(&b.g, 2);
+        for &total in &[0xFFFF_FFFFu32, 0xFFFF_FFFE, 0x8000_0000] {
+            for &spc in &[1u32, 128] {
+                for &reserved in &[0u32, 1, 2, 0xFFFF] {
+                    for &nfats in &[0u32, 1, 255] {
+                        for &fatsz in &[0u32, 1, 0xFFFF_FFFF] {
+                            for &rootent in &[0u32, 0xFFFF] {
+                                for &rootclus in &[2u32, 0xFFFF_FFFF] {
+                                    for &hint in &[2u32, 12345, 0x0FFF_FFF7, 0xFFFF_FFFE] {
+                                        for &count in &[0u32, 0xFFFF_FFFE] {
+                                            let mut img = b.img.clone();
+                                            set_field(&mut img, bpb, 19, 2, 0);
+                                            set_field(&mut img, bpb, 32, 4, total);
+                                            set_field(&mut img, bpb, 13, 1, spc);
+                                            set_field(&mut img, bpb, 14, 2, reserved);
+                                            set_field(&mut img, bpb, 16, 1, nfats);
+                                            set_field(&mut img, bpb, 22, 2, 0);
+                                            set_field(&mut img, bpb, 36, 4, fatsz);
+                                            set_field(&mut img, bpb, 17, 2, rootent);
+                                            set_field(&mut img, bpb, 44, 4, rootclus);
+                                            set_field(&mut img, inf, 488, 4, count);
+                                            set_field(&mut img, inf, 492, 4, hint);
+                                            let case = || J::obj().set("base", b.g.describe()).set("mutation", format!("total32={:#x} spc={} reserved={} fats={} fat_size32={:#x} root_entries={} root_cluster={:#x} fsinfo count={:#x} hint={:#x}", total, spc, reserved, nfats, fatsz, rootent, rootclus, count, hint));
+                                            try_open(img, &b.g, "extreme combination", &case, rep);
+                                            rep.distinct_extra += 1;
+                                            rep.count("extreme_combinations", 1);
+                                        }
+                                    }
+                                }
+                            }
+                        }
+                    }
+                }
+            }
+        }
+    });
+    total.merge(r);
+
     // ---- invalid side: random byte/bit mutations and random sectors -----------------------------
     let nrand = ctx.pick(1_000_000usize, 20_000_000usize);
     let r = report::parallel(ctx.threads, 64, |chunk, rep| {
